@@ -53,6 +53,8 @@ func (in Instr) String() string {
 		return fmt.Sprintf("%s=%s(%s %s)", in.Dst, in.Op, in.CK, v)
 	case "copy":
 		return fmt.Sprintf("%s=copy(%s)", in.Dst, in.Src1)
+	case "id1":
+		return fmt.Sprintf("%s=identityfn(%s)", in.Dst, in.Src1)
 	case "fn1":
 		return fmt.Sprintf("%s=fn1->%s(%s)", in.Dst, in.Res, in.Src1)
 	case "fn2":
@@ -266,6 +268,18 @@ func (in Instr) Build(kinds map[string]Kind) qframe.Instruction {
 	case "copy":
 		r.Fn = types.ColumnName(in.Src1)
 		r.SrcCol1 = ""
+	case "id1":
+		// a user function that returns its argument (an implementation may be tempted to recognise it)
+		switch srcKindNorm(kinds[in.Src1]) {
+		case KInt:
+			r.Fn = func(x int) int { called(); return x }
+		case KFloat:
+			r.Fn = func(x float64) float64 { called(); return x }
+		case KBool:
+			r.Fn = func(x bool) bool { called(); return x }
+		default:
+			r.Fn = func(x *string) *string { called(); return x }
+		}
 	case "fn1":
 		r.Fn = fn1For(kinds[in.Src1], in.Res)
 	case "fn2":
@@ -321,6 +335,16 @@ func (in Instr) Exec(t Table, rows []int) Table {
 		src := t.MustCol(in.Src1)
 		dst = zeroLike(src, n)
 		dst.Name = in.Dst
+		for _, r := range rows {
+			copyCell(&dst, src, r)
+		}
+	case "id1":
+		src := t.MustCol(in.Src1)
+		dst = zeroLike(src, n)
+		dst.Name = in.Dst
+		if dst.Kind == KEnum {
+			dst.Kind, dst.Enum = KString, nil // a func(*string) *string result is a string column
+		}
 		for _, r := range rows {
 			copyCell(&dst, src, r)
 		}
@@ -481,7 +505,10 @@ func GenInstrs(t *rapid.T, tab Table, max int) []Instr {
 		if rapid.IntRange(0, 3).Draw(t, "dsteqsrc") == 0 {
 			in.Dst = src.Name
 		}
-		switch rapid.IntRange(0, 9).Draw(t, "instrkind") {
+		switch rapid.IntRange(0, 10).Draw(t, "instrkind") {
+		case 10:
+			in.Op = "id1"
+			in.Src1 = src.Name
 		case 0:
 			in.Op = "const"
 			genConst(t, &in)
